@@ -430,18 +430,18 @@ PROPERTIES = {
     "C14": {
         "level": "proof",
         "claim": "For ALL argument words: wrong arity is an ArgumentError for every builtin but print; bool/int/float conversions of null, bool, int, float (all 2^64 payloads), array, function are the documented value or the documented error, converting a value to its own type returns the very same word, int(float) truncates toward zero and never wraps; dispatch byte <-> builtin is total on 0..=6. Proved by loop-free Kani harnesses on the real builtins.rs with heap reads replaced by their contracts.",
-        "note": "Trusted: Kani/CBMC. NOT decided (std formatting / parsing loops are out of CBMC's reach and have no Verus model): type(x) and string(x) result text, int/float of text, number -> text -> number round trip, print's placeholder substitution. Bounded: lengte of arrays (<= 3), resolve (12 concrete names).",
+        "note": "Trusted: Kani/CBMC. NOT decided (std formatting / parsing loops are out of CBMC's reach and have no Verus model): type(x) and string(x) result text, int/float of text, number -> text -> number round trip, print's placeholder substitution. Bounded: lengte of arrays (<= 3), resolve (12 concrete names). lengte() as a whole function (arity, text = number of CHARACTERS, list = number of elements, other types TypeError) is proved by the Verus unit c13_strings (O13.2) with chars().count() under its std contract.",
         "design_ref": "DESIGN.md 3.4",
         "undecided": ["call_print placeholder substitution", "call_type / call_string result text (std::fmt machinery)", "int(text) / float(text) parsing, number->text->number round trip (std FromStr/Display)"],
         "assumptions": ["callee contracts as_f64_unchecked / as_str_unchecked / as_vec_unchecked / Object::float as proved by O15.7, O15.8a/b"],
     },
     "C13": {
         "level": "proof",
-        "claim": "Array element read/write is proved for arrays of EVERY length and every index (Verus on the verbatim bodies of index_get_array/index_set_array: whole-view postcondition, negative indices from the back, IndexError leaves the array unchanged); the index/target type discipline of index_get/index_set is proved for ALL words (Kani, modular); aliasing only by a bounded stand-in; the character-based string operations are NOT decided (out of reach of both back ends).",
-        "note": "Trusted: Verus/Z3, Kani/CBMC, R3 cast helpers (their contract is itself proved by O13.cast). Bounded: aliasing (length-2 array nested once). Not decided: string indexing/length/assignment.",
+        "claim": "Array element read/write is proved for arrays of EVERY length and every index (Verus on the verbatim bodies of index_get_array/index_set_array: whole-view postcondition, negative indices from the back, IndexError leaves the array unchanged); the index/target type discipline of index_get/index_set is proved for ALL words (Kani, modular); aliasing only by a bounded stand-in. Text element read/write and length (Verus on the verbatim bodies of index_get_string / index_set_string / call_length, texts of EVERY length and content, a text being its sequence of characters): the index counts CHARACTERS, negative indices count from the back, exactly the indexed character is read / replaced by the value's text, out of bounds is an IndexError and a non-text value a TypeError with the text unchanged, and no unwrap() can meet a None (no panic on non-ASCII text); the std text operations themselves are under assumed contracts.",
+        "note": "Trusted: Verus/Z3, Kani/CBMC, R3 cast helpers (their contract is itself proved by O13.cast). Bounded: aliasing (length-2 array nested once). Assumed in the text unit (std documentation; Verus has no model of Chars): chars().count() = number of characters, chars().nth(i) = the i-th character or None, len() = UTF-8 byte length (1..4 per character), char/str to_string, and the compound char_indices().nth(i).map(byte range).unwrap() + replace_range expression = replace the i-th character, panicking when there is none.",
         "design_ref": "DESIGN.md 3.3",
-        "undecided": ["index_get_string / index_set_string / call_length on strings (str iterator adapters do not finish in CBMC even on concrete 2-character texts; no Verus model)", "aliasing through the VM's stack/globals (composition with C12/C02)"],
-        "assumptions": ["a Vec holds at most isize::MAX elements (std guarantee) - precondition of the array units"],
+        "undecided": ["the byte arithmetic inside the replace_range expression of index_set_string (char_indices / len_utf8: assumed as one std-documented operation)", "s[i] = s aliasing (the replacement is copied first: assumed by str::to_string's contract)", "aliasing through the VM's stack/globals (composition with C12/C02)"],
+        "assumptions": ["a Vec holds at most isize::MAX elements (std guarantee) - precondition of the array units", "std text operations behave as documented (chars().count / nth, len, to_string, char_indices + replace_range)", "a text has fewer than 2^60 characters (address space)"],
     },
     "C06": {
         "level": "proof",
